@@ -355,8 +355,8 @@ func mentions(t *Type, d *Def) bool {
 func (g *generator) genFields(f *File, d *Def, fwd []*Def) {
 	r := g.r
 	n := r.Intn(g.cfg.MaxFields + 1)
-	if d.Kind == Union && n == 0 {
-		n = 1
+	if d.Kind == Union && n == 0 && !r.Chance(1, 8) {
+		n = 1 // an empty union is legal (and has no arity check) but rare
 	}
 	ids := map[int]bool{}
 	for i := 0; i < n; i++ {
